@@ -803,3 +803,140 @@ def c14(case):
             break
         events.append(ev)
     return {"events": events}
+
+
+# ---------------------------------------------------------------------------
+# C15: purity across histories
+
+C15_KEYS = {"k1": "154n97w14", "k2": "155n98w01", "kerr": "XXXzXXXzXX"}
+C15_OTHER = {"o1": "T154N-R97W Sec 14: NE/4, T155N-R98W Sec 1: Lots 1 - 3", "o2": "T155N-R98W Sec 1: W/2, Sec 0: that part"}
+
+
+def c15_reset():
+    import pytrs
+    pytrs.MasterConfig.default_ns = "n"
+    pytrs.MasterConfig.default_ew = "w"
+    pytrs.TRS._USE_CACHE = True
+    pytrs.TRS._clear_cache()
+
+
+def c15_probe(p):
+    import pytrs
+    if p == "plss_nodir":
+        return snap_plss(pytrs.PLSSDesc("T154-R97W Sec 14: NE/4, Lots 1 - 3", parse_qq=True))
+    if p == "plss_full":
+        return snap_plss(pytrs.PLSSDesc("T154N-R97W Sec 14: NE/4, Sec 15: Lots 1, 1"))
+    if p == "plss_qq":
+        d = pytrs.PLSSDesc("T154N-R97W Sec 14: N/2NE/4, Lot 1 (38.12)", config="parse_qq,qq_depth.2")
+        return (snap_plss(d), d.tracts_to_dict("trs", "twp", "sec_num", "qqs", "lots", "lot_acres", "w_flags"),
+                d.tracts_to_list("trs", "qqs"))
+    if p == "tract_build":
+        t = pytrs.Tract.from_twprgesec("NE/4", 154, 97, 14, parse_qq=True)
+        r = pytrs.TRS.from_twprgesec(154, 97, 14)
+        return (snap_tract(t), r.trs, r.twp, r.rge)
+    if p == "trs_attrs":
+        r = pytrs.TRS("154n97w14")
+        t = pytrs.Tract("NE/4", trs="154n97w14")
+        return tuple((o.trs, o.twp, o.twp_num, o.twp_ns, o.rge, o.rge_num, o.rge_ew, o.sec, o.sec_num, o.twprge,
+                      o.twp_undef, o.rge_undef, o.sec_undef) for o in (r, t)) + (r.pretty_twprge(), r.is_error(), r.is_undef())
+    if p == "trs_dict":
+        return (sorted(pytrs.trs_to_dict("154n97w14").items(), key=repr),
+                sorted(pytrs.trs_to_dict(pytrs.TRS("154n97w14")).items(), key=repr),
+                sorted(pytrs.Tract("NE/4", "154n97w14").to_dict("trs", "twp", "rge", "sec", "sec_num", "twprge").items(), key=repr))
+    if p == "find_twprge":
+        return (pytrs.find_twprge("T154-R97 Sec 14, T155N-R98W", preprocess=True), pytrs.find_sec("Sec 14, T155N-R98W"))
+    if p == "trslist":
+        l = pytrs.TRSList(["154n97w14", pytrs.TRS("154n97w14"), pytrs.Tract("x", "154n97w14")])
+        return tuple((x.trs, x.twp_num, x.sec_num, x.twprge) for x in l) + (len(l.filter_duplicates()),)
+    raise ValueError(p)
+
+
+def _mutate_container(x):
+    if isinstance(x, dict):
+        for k in list(x):
+            v = x[k]
+            if isinstance(v, (list, dict)):
+                _mutate_container(v)
+            x[k] = "MUTATED"
+        x["extra"] = "MUTATED"
+    elif isinstance(x, list):
+        for v in x:
+            if isinstance(v, (list, dict)):
+                _mutate_container(v)
+        x.append("MUTATED")
+        if len(x) > 1:
+            x[0] = "MUTATED"
+
+
+def c15_do(op):
+    import pytrs
+    name, a, b = op["name"], op["a"], op["b"]
+    if name == "begin":
+        c15_reset()
+    elif name == "set_mc":
+        pytrs.MasterConfig.default_ns = a
+        pytrs.MasterConfig.default_ew = b
+    elif name == "restore_mc":
+        pytrs.MasterConfig.default_ns = "n"
+        pytrs.MasterConfig.default_ew = "w"
+    elif name == "clear_cache":
+        pytrs.TRS._clear_cache()
+    elif name == "use_cache":
+        pytrs.TRS._USE_CACHE = (a == "on")
+    elif name == "parse_other":
+        d = pytrs.PLSSDesc(C15_OTHER[a], parse_qq=True)
+        d.tracts_to_dict("trs", "twp")
+    elif name == "make_trs":
+        pytrs.TRS(C15_KEYS[a])
+        pytrs.Tract("NE/4", trs=C15_KEYS[a])
+    elif name == "mutate":
+        k = C15_KEYS[a]
+        if b == "trs_to_dict_str":
+            _mutate_container(pytrs.trs_to_dict(k))
+        elif b == "trs_to_dict_obj":
+            _mutate_container(pytrs.trs_to_dict(pytrs.TRS(k)))
+            _mutate_container(pytrs.TRS.trs_to_dict(pytrs.TRS(k)))
+        elif b == "tract_to_dict":
+            t = pytrs.Tract("NE/4, Lots 1, 1", trs=k, parse_qq=True)
+            _mutate_container(t.to_dict("trs", "twp", "sec_num", "qqs", "lots", "w_flags", "lot_acres"))
+            _mutate_container(t.to_list("trs", "qqs", "w_flag_lines"))
+        elif b == "tracts_to_dict":
+            d = pytrs.PLSSDesc("T154N-R97W Sec 14: NE/4, Lots 1, 1, T155N-R98W Sec 1: W/2", parse_qq=True)
+            for rec in d.tracts_to_dict("trs", "twp", "qqs", "w_flags"):
+                _mutate_container(rec)
+        elif b == "tracts_to_list":
+            d = pytrs.PLSSDesc("T154N-R97W Sec 14: NE/4, Lots 1, 1, T155N-R98W Sec 1: W/2", parse_qq=True)
+            for rec in d.tracts_to_list("trs", "qqs", "lots"):
+                _mutate_container(rec)
+        else:
+            d = pytrs.PLSSDesc("T154N-R97W Sec 14 - 13: NE/4, Lots 1, 1", parse_qq=True)
+            _mutate_container(d.w_flags)
+            _mutate_container(d.tracts[0].w_flags)
+            _mutate_container(d.tracts[0].qqs)
+            g = d.tracts.group_by("twprge")
+            _mutate_container(g)
+    elif name == "probe":
+        return c15_probe(a)
+    else:
+        raise ValueError(name)
+    return None
+
+
+def c15(case):
+    events = []
+    try:
+        for seq, op in enumerate([{"name": "begin", "a": "-", "b": "-"}] + case["args"]["ops"]):
+            ev = {"tid": case["id"], "seq": seq, "op": op, "fp": 0, "exc": "none"}
+            try:
+                r = c15_do(op)
+                if op["name"] == "probe":
+                    ev["fp"] = _h(r)
+            except Exception as e:  # noqa
+                ev["exc"] = type(e).__name__
+                ev["exc_msg"] = str(e)[:200]
+                events.append(ev)
+                break
+            events.append(ev)
+    finally:
+        c15_reset()
+    return {"events": events}
